@@ -231,8 +231,15 @@ def handle_mismatches(ctx, cmds_path, corr, orc, side, opts, harness=None):
 def run_files(ctx, files, opts, corr_tags, oracle_tags, harness=None, project=None, want_model=True):
     tot = {"commands": 0, "compared_model": 0, "compared_oracle": 0, "files": 0}
     distinct, nontriv = set(), set()
+    # the tree families also run the REGENERATED program beside the model (driver built from Extract/ExtractGen.v,
+    # when the development compiles), for each tree's first 150 operations: identical output unless the two disagree
+    gen_files = set()
+    if want_model and os.path.exists(ctx.build.gendriver):
+        gen_files = set(f for f in files if os.path.getsize(f) < 3000000 and any(c.startswith("NEW ") for c in read_cmds(f)[:3]))
     def one(f):
-        return f, run_pair(ctx.build, f, opts, harness, want_model=want_model)
+        return f, run_pair(ctx.build, f, opts, harness, want_model=want_model, driver=(ctx.build.gendriver if f in gen_files else None))
+    tot["files_with_regenerated_program"] = len(gen_files)
+    tot["commands_with_regenerated_program"] = 0
     with ThreadPoolExecutor(max_workers=16) as ex:
         results = list(ex.map(one, files))
     for f, r in results:
@@ -244,6 +251,8 @@ def run_files(ctx, files, opts, corr_tags, oracle_tags, harness=None, project=No
         for k in st:
             tot[k] += st[k]
         tot["files"] += 1
+        if f in gen_files:
+            tot["commands_with_regenerated_program"] += st.get("commands", 0)
         cmds = read_cmds(f)
         outl = load_lines(f[:-5] + ".out")
         if any(c.startswith(("NEW ", "NNEW ")) for c in cmds[:3]):
@@ -536,6 +545,12 @@ def run_property(ctx):
         "distinct_histories": tot_all.get("distinct_histories", 0),
         "generator_distribution": gen_stats,
         "panics_seen_in_implementation": tot_all.get("panics_seen", 0),
+        "regenerated_program_beside_the_model": {
+            "files": tot_all.get("files_with_regenerated_program", 0),
+            "commands_in_those_files": tot_all.get("commands_with_regenerated_program", 0),
+            "note": "in these files the driver built from Extract/ExtractGen.v also executes the REGENERATED methods (Gen/*.v, heap state) "
+                    "for byte-string, collation, 64-bit numeric and compound trees (each tree's first 150 operations) and marks every line on "
+                    "which they and the hand-written model differ; absent (0) when the development does not compile"},
         "explanation": "Theorems about the Gallina model (see proof.*) + correspondence of the extracted model with the implementation on the commands counted here "
                        "+ independent property oracle used to search for failing inputs.",
         "exhaustive": False,
